@@ -606,6 +606,13 @@ struct TypeRunner {
     }
   }
 
+  // capacities at which the run is also replayed on the writer model: all of them for small values, the
+  // two ends and a sample otherwise (each replay line carries the whole value)
+  bool tie_cap(std::size_t cap, std::size_t size) {
+    if (size <= 96) return true;
+    return cap < 8 || cap + 10 >= size || rng.chance(3);
+  }
+
   // ---- C06: every capacity from 0 to GetSize+1, every buffer writer ----
   void mode_cap(const T& v) {
     nop::Serializer<nop::BufferWriter*> sizer;
@@ -641,7 +648,7 @@ struct TypeRunner {
         if (!why.empty())
           c.line('X', std::string("C06 capacity type=") + tid + " writer=" + wk_name[wk] + " cap=" + std::to_string(cap) + " size=" + std::to_string(size) +
                           " why=" + why + " val=" + dump_str(v, false));
-        if (wk == W_PED) {   // the call-level writer model (Snk with this capacity) against the checked writer
+        if (wk == W_PED && tie_cap(cap, size)) {   // the call-level writer model (Snk with this capacity) against the checked writer
           c.line('M', "wcap " + tid + " " + std::to_string(cap) + " - " + dump_str(v, false) + " " + cap_refs);
           c.line('I', r.ok ? "ok " + hex(r.bytes) : std::string("err ") + status_name(r.err) + " " + std::to_string(r.reported));
         }
@@ -649,8 +656,10 @@ struct TypeRunner {
       // BoundedWriter with a generous budget over a buffer of `cap` bytes
       {
         WResult r = write_bounded(v, size + 8, cap, {});
-        c.line('M', "wcap " + tid + " " + std::to_string(cap) + " " + std::to_string(size + 8) + " " + dump_str(v, false) + " " + cap_refs);
-        c.line('I', r.ok ? "ok " + hex(r.bytes) : std::string("err ") + status_name(r.err) + " " + std::to_string(r.reported));
+        if (tie_cap(cap, size)) {
+          c.line('M', "wcap " + tid + " " + std::to_string(cap) + " " + std::to_string(size + 8) + " " + dump_str(v, false) + " " + cap_refs);
+          c.line('I', r.ok ? "ok " + hex(r.bytes) : std::string("err ") + status_name(r.err) + " " + std::to_string(r.reported));
+        }
         bool want_ok = cap >= size;
         if (!r.guard_ok || r.ok != want_ok || (!want_ok && r.reported != 0))
           c.line('X', "C06 capacity type=" + tid + " writer=bounded-over-small-buffer cap=" + std::to_string(cap) + " size=" + std::to_string(size) +
